@@ -1,6 +1,14 @@
 import FunModel.WaitGroup
+import FunProofs.WaitGroup
 
-/-! C14 — placeholder until FunProofs/WaitGroup.lean lands -/
+/-! C14 — `fun.WaitGroup`: property theorems over the small-step model (`FunModel.Conc` +
+    `FunModel.WaitGroup`), for every number of threads, every list of programs and every schedule:
+    all states `Reach`able from `init programs` — the system `runCase` builds — by enabled actions
+    (`start`, `resume`, `cancel`, `fire`). The executions of the harness are such states
+    (`Conc.runCase_final_reach`).
+
+    Reuse across rounds needs no separate theorem: the invariants are over arbitrary action
+    sequences, so a counter that went 0 → n → 0 → m … is covered by the same statements. -/
 namespace FunModel.C14
 open FunModel.Conc FunModel.WaitGroup
 
@@ -8,5 +16,124 @@ open FunModel.Conc FunModel.WaitGroup
 theorem negative_add_panics_unchanged (s : St) (t : Nat) (n : Int) (h : s.counter + n < 0) :
     (start s t (.add n)).st = s ∧ (start s t (.add n)).fin = .ret "panic" ∧ (start s t (.add n)).sigs = [] := by
   simp [start, h]
+
+/-- `Wait` returns only if the counter is 0 or its context is done: whenever a `start t` / `resume t`
+    step of a thread whose current operation is `Wait` completes the operation (`pc` advances), then
+    at that step the counter was 0, or the step was a resumption and the thread's context had been
+    cancelled (a freshly started `Wait` has a live context). The step does not change the counter. -/
+theorem wait_returns_only_if (programs : List (List Op)) {s s' : Sys St Op} {a : Act} {obs : String} {t : Nat}
+    {th th' : Th Op} (hr : Reach subject (init programs) s) (hen : a ∈ enabled s true)
+    (hs : step subject s a = some (s', obs)) (ha : a = .start t ∨ a = .resume t)
+    (hth : s.ths[t]? = some th) (hop : th.ops[th.pc]? = some .wait)
+    (hth' : s'.ths[t]? = some th') (hret : th'.pc = th.pc + 1) :
+    (s.subj.counter = 0 ∨ (a = .resume t ∧ th.cancelled = true)) ∧ s'.subj = s.subj :=
+  WaitGroup.wait_returns_only_if hr hen hs ha hth hop hth' hret
+
+/-- the counter is the sum of the deltas of the completed, non-panicking `Add`s (`deltaSum` is
+    computed from the log of executed segments: the operation of the program and its observed
+    result `ret:ok` — not from the counter), and it is never negative -/
+theorem counter_is_sum (programs : List (List Op)) {evs : List (Ev Op)} {s : Sys St Op}
+    (h : ReachT subject (init programs) evs s) : s.subj.counter = deltaSum evs ∧ 0 ≤ s.subj.counter :=
+  ⟨counter_sum h, (reach_inv h.reach).nonneg⟩
+
+/-- every reachable state has such a log -/
+theorem counter_is_sum_reach (programs : List (List Op)) {s : Sys St Op} (hr : Reach subject (init programs) s) :
+    ∃ evs, ReachT subject (init programs) evs s ∧ s.subj.counter = deltaSum evs ∧ 0 ≤ s.subj.counter := by
+  obtain ⟨evs, h⟩ := hr.reachT (initSys_wf _ _)
+  exact ⟨evs, h, counter_is_sum programs h⟩
+
+/-- no stuck waiter: in every reachable quiescent state (no woken goroutine still has to re-check,
+    no helper broadcast is outstanding) a parked thread is inside `Wait`, the counter is not 0 and
+    its context is not cancelled -/
+theorem no_stuck_wg (programs : List (List Op)) {s : Sys St Op} (hr : Reach subject (init programs) s)
+    (q : Quiescent s) {t : Nat} {th : Th Op} {c : Nat} (hth : s.ths[t]? = some th) (hp : th.st = .parked c) :
+    th.ops[th.pc]? = some .wait ∧ s.subj.counter ≠ 0 ∧ th.cancelled = false :=
+  ⟨(parked_facts hr hth hp).1, no_stuck hr q hth hp⟩
+
+/-- the invariant behind it, in every reachable state (quiescent or not): nobody is parked while the
+    counter is 0; a parked waiter has an unfired helper; a parked waiter whose context was cancelled
+    has its own helper pending at its gate (so `fire` is enabled) -/
+theorem parked_invariant (programs : List (List Op)) {s : Sys St Op} (hr : Reach subject (init programs) s)
+    {t : Nat} {th : Th Op} {c : Nat} (hth : s.ths[t]? = some th) (hp : th.st = .parked c) :
+    c = 0 ∧ s.subj.counter ≠ 0 ∧ Live 0 th.helpers ∧ (th.cancelled = true → Pending 0 th.helpers) :=
+  (parked_facts hr hth hp).2
+
+/-- `Launch` is covered: a `Wait` segment that starts or resumes while the counter is ≥ 1 with a live
+    context does not return in that segment (it parks on `wg.cond`, its `pc` stays, the counter is
+    unchanged). By `counter_is_sum` the premise `counter ≠ 0` is "the completed `Add`s exceed the
+    completed `Done`s" — in particular it holds from the return of `Launch`'s `Add(1)` until its
+    matching `Done`, see `launch_covered_log`. -/
+theorem launch_covered (programs : List (List Op)) {s s' : Sys St Op} {a : Act} {obs : String} {t : Nat}
+    {th th' : Th Op} (hr : Reach subject (init programs) s) (hen : a ∈ enabled s true)
+    (hs : step subject s a = some (s', obs)) (ha : a = .start t ∨ a = .resume t)
+    (hth : s.ths[t]? = some th) (hop : th.ops[th.pc]? = some .wait)
+    (hcnt : s.subj.counter ≠ 0) (hlive : a = .resume t → th.cancelled = false)
+    (hth' : s'.ths[t]? = some th') : th'.st = .parked 0 ∧ th'.pc = th.pc ∧ s'.subj = s.subj :=
+  wait_parks hr hen hs ha hth hop hcnt hlive hth'
+
+/-- the same in terms of the log: as long as the deltas of the completed `Add`/`Done` calls sum to
+    at least 1, no live-context `Wait` returns -/
+theorem launch_covered_log (programs : List (List Op)) {evs : List (Ev Op)} {s s' : Sys St Op} {a : Act}
+    {obs : String} {t : Nat} {th th' : Th Op} (h : ReachT subject (init programs) evs s)
+    (hsum : 1 ≤ deltaSum evs) (hen : a ∈ enabled s true)
+    (hs : step subject s a = some (s', obs)) (ha : a = .start t ∨ a = .resume t)
+    (hth : s.ths[t]? = some th) (hop : th.ops[th.pc]? = some .wait)
+    (hlive : a = .resume t → th.cancelled = false)
+    (hth' : s'.ths[t]? = some th') : th'.st = .parked 0 ∧ th'.pc = th.pc :=
+  have hc : s.subj.counter ≠ 0 := by rw [counter_sum h]; omega
+  ⟨(wait_parks h.reach hen hs ha hth hop hc hlive hth').1, (wait_parks h.reach hen hs ha hth hop hc hlive hth').2.1⟩
+
+/-- `Launch`-shaped programs (`Balanced`: in every program every prefix has a non-negative delta sum,
+    i.e. each `Done` is preceded in its own thread by the `Add` it matches — `Launch` is
+    `Add(1) … Done`): the counter is exactly the sum over the threads of the deltas they completed,
+    and no `Add`/`Done` ever panics -/
+theorem balanced_counter (programs : List (List Op)) (hb : Balanced programs) {s : Sys St Op}
+    (hr : Reach subject (init programs) s) :
+    s.subj.counter = (s.ths.map doneOf).sum ∧
+    ∀ (t : Nat) (th : Th Op) (n : Int), s.ths[t]? = some th → th.ops[th.pc]? = some (.add n) → ¬ (s.subj.counter + n < 0) :=
+  ⟨(reach_binv hb hr).sum, fun _ _ _ hth hop => balanced_no_panic hb hr hth hop⟩
+
+/-- … hence between an `Add(1)` and its matching `Done` no live-context `Wait` returns: while some
+    thread `p` is strictly inside a launch (its completed deltas sum to ≥ 1: its `Add` has returned,
+    its `Done` has not), every `Wait` segment with a live context parks -/
+theorem launch_covered_balanced (programs : List (List Op)) (hb : Balanced programs) {s s' : Sys St Op} {a : Act}
+    {obs : String} {t p : Nat} {th th' thp : Th Op} (hr : Reach subject (init programs) s)
+    (hp : s.ths[p]? = some thp) (hin : 1 ≤ prefixSum thp.ops thp.pc)
+    (hen : a ∈ enabled s true) (hs : step subject s a = some (s', obs)) (ha : a = .start t ∨ a = .resume t)
+    (hth : s.ths[t]? = some th) (hop : th.ops[th.pc]? = some .wait)
+    (hlive : a = .resume t → th.cancelled = false) (hth' : s'.ths[t]? = some th') :
+    1 ≤ s.subj.counter ∧ th'.st = .parked 0 ∧ th'.pc = th.pc := by
+  have hc : 1 ≤ s.subj.counter := Int.le_trans hin (counter_ge_inflight hb hr hp)
+  have := wait_parks hr hen hs ha hth hop (by omega) hlive hth'
+  exact ⟨hc, this.1, this.2.1⟩
+
+/-! ### non-vacuity -/
+
+/-- a launcher and a waiter: balanced -/
+example : Balanced [[.add 1, .add (-1)], [.wait]] := by
+  intro p hp n
+  simp at hp
+  rcases hp with rfl | rfl
+  · rcases n with _ | _ | n <;> simp [prefixSum, opDelta]
+  · rcases n with _ | n <;> simp [prefixSum, opDelta]
+
+
+/-- thread 0 did `Add(1)`, thread 1 called `Wait` and is parked: reachable, quiescent, a thread is
+    parked (so `no_stuck_wg`, `parked_invariant` speak about something) and the counter is 1 -/
+example : ∃ s, Reach subject (init [[.add 1, .add (-1)], [.wait]]) s ∧ Quiescent s ∧
+    (∃ th, s.ths[1]? = some th ∧ th.st = .parked 0 ∧ th.ops[th.pc]? = some .wait) ∧ s.subj.counter = 1 := by
+  refine ⟨_, reach_of_runActs [.start 0, .start 1] rfl .init, ?_, ⟨_, rfl, rfl, rfl⟩, rfl⟩
+  decide
+
+/-- … then the `Done` wakes it, and the resumed `Wait` returns with counter 0
+    (`wait_returns_only_if`'s hypotheses are satisfiable) -/
+example : ∃ s, Reach subject (init [[.add 1, .add (-1)], [.wait]]) s ∧
+    .resume 1 ∈ enabled s true ∧ (∃ th, s.ths[1]? = some th ∧ th.ops[th.pc]? = some .wait) ∧ s.subj.counter = 0 := by
+  refine ⟨_, reach_of_runActs [.start 0, .start 1, .start 0] rfl .init, by decide, ⟨_, rfl, rfl⟩, rfl⟩
+
+/-- a cancelled parked waiter: its helper is at the gate, `fire 1` is enabled, the state is not quiescent -/
+example : ∃ s, Reach subject (init [[.add 1], [.wait]]) s ∧ .fire 1 ∈ enabled s true ∧
+    (∃ th, s.ths[1]? = some th ∧ th.st = .parked 0 ∧ th.cancelled = true) := by
+  refine ⟨_, reach_of_runActs [.start 0, .start 1, .cancel 1] rfl .init, by decide, ⟨_, rfl, rfl, rfl⟩⟩
 
 end FunModel.C14
